@@ -389,6 +389,9 @@ def install(ex):
     def unit_ctor(ex, path, args, kwargs, node):
         if tagged() and args and isinstance(args[0], sv.SStr) and args[0].py == "s":
             return sv.SObj(USEC, "units")
+        if tagged() and args and isinstance(args[0], sv.SStr) and args[0].py is not None:
+            # any other literal unit: an unspecified unit of its own (nothing relates it to the second)
+            return sv.SObj(z3.Const("unit:" + args[0].py, sv.OpaqueS), "units")
         return old_unit(ex, path, args, kwargs, node)
 
     ex.ext_models["pint.application_registry.Unit"] = unit_ctor
@@ -403,6 +406,8 @@ def install(ex):
             return sv.SObj(UMUL(a.e, b.e), "units")
         if isinstance(a, (sv.SReal, sv.SInt)) and is_unit(b):
             return sv.SPay(sv.to_real(a.e), b)
+        if isinstance(b, (sv.SReal, sv.SInt)) and is_unit(a):
+            return sv.SPay(sv.to_real(b.e), a)
         return None
 
     ex.hooks.setdefault("binop", []).insert(0, binop)
